@@ -107,6 +107,16 @@ func (w *dnsWorld) c07AfterOp(op *dnsOp) {
 		}
 		verdict := rs.evalResponse(lname, op.qtype, q.up, a.ips)
 		last := i == len(hops)-1
+		// A failed attempt of the same hop is not a re-ask: DoTCP retries once on a new
+		// connection after closing the one whose round trip failed, and a tcp+udp upstream
+		// falls back from UDP to TCP. (A genuine re-ask at the same upstream reuses the
+		// pooled connection and is what the verdict says.)
+		if !last && hops[i+1].up == q.up && verdict != q.up {
+			if (q.tcp && q.tc.cli.IsClosed()) || (!q.tcp && hops[i+1].tcp) {
+				s.Probe("dns.c07-transport-retry")
+				continue
+			}
+		}
 		switch {
 		case verdict >= 0:
 			s.Probe("dns.c07-reask")
